@@ -59,7 +59,10 @@ class World:
         os.makedirs(self.bin, exist_ok=True)
         self.syslog = os.path.join(root, "systemctl.log")
         with open(os.path.join(self.bin, "systemctl"), "w") as f:
-            f.write("#!/bin/sh\necho \"$@\" >> %s\nexit 0\n" % self.syslog)
+            # records every call; like systemd, `stop` of a unit that is not loaded fails (exit status 5)
+            f.write("#!/bin/sh\necho \"$@\" >> %s\n"
+                    "if [ \"$1\" = stop ] && [ ! -e \"/usr/lib/systemd/system/$2.service\" ] && [ ! -e \"/usr/lib/systemd/system/$2\" ]; then\n"
+                    "  echo \"Failed to stop $2.service: Unit $2.service not loaded.\" >&2\n  exit 5\nfi\nexit 0\n" % self.syslog)
         os.chmod(os.path.join(self.bin, "systemctl"), 0o755)
         self.ids = {}
 
@@ -67,7 +70,9 @@ class World:
         """file content for a content id; ids >= 1000 are executables that do NOT answer --version"""
         if cid >= 1000:
             return ("#!/bin/sh\n# content %d\nexit 3\n" % cid).encode()
-        return ("#!/bin/sh\n# content %d\necho 1.0.%d\n" % (cid, cid)).encode()
+        # what `--version` prints is free text as far as the setup tool on Linux is concerned
+        text = ["1.0.%d", "azure-proxy-agent 1.0.%d", "v1.0.%d", "1.0.%d-beta+build7"][cid % 4] % cid
+        return ("#!/bin/sh\n# content %d\necho '%s'\n" % (cid, text)).encode()
 
     def put(self, name, cid):
         p = self.paths[name]
@@ -231,4 +236,4 @@ def run(chk):
                             "installed (some file missing), backup present/absent/partial, package complete/incomplete/non-runnable} with distinct "
                             "file contents; after every command the 12 modelled files, the systemctl call log and a digest of everything else "
                             "are compared with the model")
-    chk.assumptions += ["systemctl is a recording stand-in that always succeeds", "the private mount namespace's overlayfs behaves like the real directories"]
+    chk.assumptions += ["systemctl is a recording stand-in; it succeeds except for `stop` of a unit whose file is not installed (exit status 5, as systemd does)", "the private mount namespace's overlayfs behaves like the real directories"]
